@@ -384,6 +384,8 @@ static void scenario(char *line)
     int have_snap = 0;
 
     while (*p) {
+        while (*p == ' ') p++;
+        if (!*p) break;
         if (ntok == tokcap) { tokcap = tokcap ? 2 * tokcap : 64; tok = realloc(tok, tokcap * sizeof(*tok)); }
         tok[ntok++] = p;
         while (*p && *p != ' ') p++;
@@ -505,31 +507,40 @@ int main(int argc, char **argv)
             int pe[2];
             pid_t pid;
             static char err[65536];
+            static FILE *tf = NULL;
             size_t got = 0;
             ssize_t r;
             int status = 0;
             fflush(stdout);
-            if (pipe(pe) != 0) return 3;
+            if (!tf) tf = tmpfile();
+            if (!tf || pipe(pe) != 0) return 3;
+            rewind(tf);
+            if (ftruncate(fileno(tf), 0) != 0) return 3;
             pid = fork();
             if (pid < 0) return 3;
             if (pid == 0) {
+                /* the child's line goes to a scratch file and is copied out only when the child ends normally */
                 close(pe[0]);
                 dup2(pe[1], 2);
-                /* nothing of a line reaches the pipe before the line is complete */
-                setvbuf(stdout, NULL, _IOFBF, 1 << 24);
+                dup2(fileno(tf), 1);
                 alarm(20);
                 scenario(line);
                 fflush(stdout);
                 _exit(0);
             }
             close(pe[1]);
-            while ((r = read(pe[0], err + got, sizeof(err) - 1 - got)) > 0) got += (size_t)r;
+            while (got < sizeof(err) - 1 && (r = read(pe[0], err + got, sizeof(err) - 1 - got)) > 0) got += (size_t)r;
             err[got] = 0;
+            { char sink[4096]; while (read(pe[0], sink, sizeof(sink)) > 0) {} }
             close(pe[0]);
             waitpid(pid, &status, 0);
-            if (!(WIFEXITED(status) && WEXITSTATUS(status) == 0)) {
+            if (WIFEXITED(status) && WEXITSTATUS(status) == 0) {
+                char cp[65536];
+                size_t n;
+                fseek(tf, 0, SEEK_SET);
+                while ((n = fread(cp, 1, sizeof(cp), tf)) > 0) fwrite(cp, 1, n, stdout);
+            } else
                 crash_line(status, err);
-            }
             fflush(stdout);
         }
     }
